@@ -266,6 +266,144 @@ func c05One(env *Env, m *wvlib.Model, c *C05Case) {
 	_ = bytes.Equal
 }
 
+// c05Aggregate drives the real AggregateWounds and the model with the same wound sequence.
+func c05Aggregate(env *Env, m *wvlib.Model, maxSize int64, ws [][3]int64) {
+	out := make(chan *pwr.Wound, len(ws)+4)
+	in := pwr.AggregateWounds(out, maxSize)
+	var toks []string
+	for _, w := range ws {
+		kind := pwr.WoundKind_FILE
+		k := "F"
+		if w[0] == 1 {
+			kind, k = pwr.WoundKind_CLOSED_FILE, "H"
+		}
+		in <- &pwr.Wound{Kind: kind, Start: w[1], End: w[2]}
+		toks = append(toks, fmt.Sprintf("%s:%d:%d", k, w[1], w[2]))
+	}
+	close(in)
+	var got []string
+	var outs []*pwr.Wound
+	for w := range out {
+		k := "F"
+		if w.Kind == pwr.WoundKind_CLOSED_FILE {
+			k = "H"
+		}
+		got = append(got, fmt.Sprintf("%s:%d:%d", k, w.Start, w.End))
+		outs = append(outs, w)
+	}
+	c := map[string]interface{}{"kind": "aggregate", "max": maxSize, "wounds": strings.Join(toks, ",")}
+	// oracle: every offset of an incoming file wound is inside an outgoing file wound
+	for _, w := range ws {
+		if w[0] != 0 {
+			continue
+		}
+		for off := w[1]; off < w[2]; off++ {
+			ok := false
+			for _, o := range outs {
+				if o.Kind == pwr.WoundKind_FILE && o.Start <= off && off < o.End {
+					ok = true
+					break
+				}
+			}
+			if !ok {
+				env.R.Violate("aggregation-loses-coverage", fmt.Sprintf("offset %d of wound [%d,%d) is in no outgoing wound: %v -> %v", off, w[1], w[2], toks, got), c)
+				break
+			}
+		}
+	}
+	arg := strings.Join(toks, ",")
+	if arg == "" {
+		arg = "-"
+	}
+	ans, err := m.Ask(fmt.Sprintf("aggregate %d %s", maxSize, arg))
+	if err != nil || ans != strings.Join(got, ",") {
+		env.R.Disagree(c, strings.Join(got, ","), ans, "see violations")
+	}
+}
+
+// c05AggregateSweep: every sequence of up to `n` consecutive block verdicts (wound / healthy) with unit blocks,
+// for small maxSize values: the aggregator's behaviour at its flush threshold is enumerated completely.
+func c05AggregateSweep(env *Env, m *wvlib.Model, n int) {
+	count := int64(0)
+	for maxSize := int64(1); maxSize <= 4; maxSize++ {
+		for l := 0; l <= n; l++ {
+			for mask := 0; mask < 1<<l; mask++ {
+				var ws [][3]int64
+				for i := 0; i < l; i++ {
+					k := int64(0)
+					if mask&(1<<i) != 0 {
+						k = 1
+					}
+					ws = append(ws, [3]int64{k, int64(i), int64(i + 1)})
+				}
+				c05Aggregate(env, m, maxSize, ws)
+				count++
+			}
+		}
+	}
+	env.R.EvalBulk(count, count-8)
+	env.R.Count("aggregate-sequences-exhaustive", count)
+}
+
+// c05LongRun: a file larger than MaxWoundSize with a long contiguous damaged run (the aggregate wound is
+// flushed in the middle of the run).
+func c05LongRun(env *Env, m *wvlib.Model, seed uint64) {
+	r := wvlib.NewRng(seed)
+	nblocks := 66 + r.Intn(75)
+	data := r.Bytes(nblocks*wvlib.BS + r.Intn(wvlib.BS))
+	b := &wvlib.Build{Entries: []wvlib.BEntry{{Path: "big.bin", Kind: 'f', Data: data}, {Path: "small.bin", Kind: 'f', Data: r.Bytes(10)}}}
+	base := env.Scratch.Sub("c05long")
+	defer os.RemoveAll(base)
+	sig, err := signBuild(base+"/signed", b)
+	if err != nil {
+		return
+	}
+	dmg := b.Clone()
+	f := dmg.Find("big.bin")
+	from := r.Intn(4)
+	to := from + r.Pick(64, 65, 66, 67, 128, 129, 130, nblocks-from)
+	if to > nblocks {
+		to = nblocks
+	}
+	for k := from; k < to; k++ {
+		f.Data[k*wvlib.BS+r.Intn(wvlib.BS)] ^= 0x5a
+	}
+	dd := base + "/disk"
+	dmg.Write(dd)
+	wp := base + "/w.pww"
+	vctx := &pwr.ValidatorContext{WoundsPath: wp, Consumer: quietConsumer}
+	c := map[string]interface{}{"kind": "longrun", "seed": seed, "blocks": nblocks, "damaged": fmt.Sprintf("[%d,%d)", from, to)}
+	if err := vctx.Validate(context.Background(), dd, sig); err != nil {
+		env.R.Violate("validate-error", err.Error(), c)
+		return
+	}
+	ws, _ := readWounds(wp)
+	fi := int64(0)
+	for i, cf := range sig.Container.Files {
+		if cf.Path == "big.bin" {
+			fi = int64(i)
+		}
+	}
+	for k := from; k < to; k++ {
+		covered := false
+		for off := k * wvlib.BS; off < (k+1)*wvlib.BS && !covered; off++ {
+			if f.Data[off] != data[off] {
+				for _, w := range ws {
+					if w.Kind == pwr.WoundKind_FILE && w.Index == fi && w.Start <= int64(off) && int64(off) < w.End {
+						covered = true
+					}
+				}
+				if !covered {
+					env.R.Violate("differing-offset-not-covered", fmt.Sprintf("block %d of a damaged run [%d,%d) of big.bin (offset %d) lies in no wound (%d wounds reported)", k, from, to, off, len(ws)), c)
+					return
+				}
+			}
+		}
+	}
+	env.R.Eval(seed, true)
+	env.R.Count("long-damaged-run", 1)
+}
+
 func runC05(env *Env) {
 	R := env.R
 	R.Rule = "random builds (nested/empty dirs, empty files, symlinks) x random damage sequences (flips at block edges and last byte, truncation incl. exactly at block boundaries, extension within/across/past the last block, emptied/deleted entries, content where empty expected, kind replacements, retargeted symlinks, combinations); distinct by seed; non-trivial = the damaged tree differs from the signed build"
@@ -289,6 +427,24 @@ func runC05(env *Env) {
 			Dmg: wvlib.DamageOpts{KindSwaps: i%2 == 0, MaxOps: 3}}
 	}
 	models := startModels(env)
+	{
+		m := <-models
+		sweep := 9
+		if env.Thorough() {
+			sweep = 13
+		}
+		c05AggregateSweep(env, m, sweep)
+		models <- m
+	}
+	nLong := 3
+	if env.Thorough() {
+		nLong = 40
+	}
+	wvlib.ParallelDo(nLong, env.Workers, func(i int) {
+		m := <-models
+		defer func() { models <- m }()
+		c05LongRun(env, m, rng.Next()+uint64(i))
+	})
 	wvlib.ParallelDo(n, env.Workers, func(i int) {
 		m := <-models
 		defer func() { models <- m }()
